@@ -10,7 +10,7 @@ the fuzzer found.
 
 environment:  VERIF_REPO      repository under test (default /repo)
               MAPSPEC_FUZZ_REPORT   path of the JSON report (rewritten whenever something new is seen and
-                                    every 20000 executions):  {"execs", "accepted", "rejected": {exc: n},
+                                    every 20000 executions):  {"execs", "elapsed_s", "accepted", "rejected": {exc: n},
                                     "failures": {bucket: {"input": str, "detail": str}}}
 
 Input bytes are mapped onto printable ASCII (printable bytes are kept, others folded into the range).
@@ -168,7 +168,12 @@ def main() -> None:
             total_runs = int(a[6:])
     state = {"execs": 0, "accepted": 0, "rejected": {}, "failures": {}}
 
+    import time
+
+    t0 = time.monotonic()
+
     def flush() -> None:
+        state["elapsed_s"] = round(time.monotonic() - t0, 3)  # informational (exec/s label), never an oracle
         if report_path:
             tmp = report_path + ".tmp"
             with open(tmp, "w") as f:
